@@ -57,6 +57,7 @@ func runC11(t *testing.T, r *engine.Run) {
 	var sarMu sync.Mutex
 	sarPolicy := map[string]string{} // user -> allow | deny | error (what the stub answers next)
 	sarLast := map[string]string{}   // user -> last answer actually given
+	sarSince := map[string]time.Time{} // user -> when the stub's answer for the user last changed
 	sarUser := func(ns, sa string) string { return "system:serviceaccount:" + ns + ":" + sa }
 	modifier := func(c kubelib.Client) {
 		c.Kube().(*fake.Clientset).Fake.PrependReactor("create", "subjectaccessreviews", func(action k8stesting.Action) (bool, runtime.Object, error) {
@@ -140,6 +141,8 @@ func runC11(t *testing.T, r *engine.Run) {
 		"kubernetes://s1", "kubernetes://s2", "kubernetes://s1-cacert", "kubernetes://a/s1", "kubernetes://b/s1", "kubernetes://istio-system/s2",
 		"kubernetes://a/s1/x-cacert", "kubernetes://b/s2/y-cacert", "kubernetes-gateway://a/s1", "kubernetes-gateway://b/s2", "configmap://a/cm1",
 		"kubernetes://", "kubernetes:///s1", "kubernetes://a/", "file-cert:/etc/x~/etc/y", "s1", "kubernetes://a/s1-cacert",
+		// segments after namespace/name
+		"kubernetes://a/s1-cacert/x", "kubernetes://b/s1-cacert/x", "kubernetes://istio-system/s1-cacert/y/z", "kubernetes://a/s2/x",
 	}
 	pickNames := func() map[string]struct{} {
 		out := map[string]struct{}{}
@@ -228,6 +231,15 @@ func runC11(t *testing.T, r *engine.Run) {
 				r.Fail("c11.key_without_authorization", strings.Join(strings.Fields(fmt.Sprint(len(segs), last == "")), ""), "%s received private key material %q for %s although the most recent SubjectAccessReview answer the control plane obtained for %s/%s was %q", c.name, material, name, p.ns, p.sa, last)
 				return
 			}
+			// "is authorised to read": an older answer may be cached, but not without bound. 45 minutes is far above
+			// any refresh interval (it does not mirror the implementation's) and must hold whatever other identities ask.
+			sarMu.Lock()
+			cur, since := sarPolicy[sarUser(p.ns, p.sa)], sarSince[sarUser(p.ns, p.sa)]
+			sarMu.Unlock()
+			if cur != "allow" && !since.IsZero() && time.Since(since) > 45*time.Minute {
+				r.Fail("c11.key_long_after_revocation", "", "%s received private key material %q for %s although the API server has refused %s/%s for %v (since %s); the last answer the control plane obtained is older than that", c.name, material, name, p.ns, p.sa, time.Since(since), since.Format("15:04:05"))
+				return
+			}
 			r.Probe("entitled_key_served")
 		}
 	}
@@ -295,6 +307,9 @@ func runC11(t *testing.T, r *engine.Run) {
 			sa := []string{"gw-sa", "other-sa"}[tp.Choose(2, "sarSa")]
 			v := []string{"allow", "deny", "error"}[tp.Choose(3, "sarV")]
 			sarMu.Lock()
+			if sarPolicy[sarUser(ns, sa)] != v {
+				sarSince[sarUser(ns, sa)] = time.Now()
+			}
 			sarPolicy[sarUser(ns, sa)] = v
 			sarMu.Unlock()
 			r.Fault("sar_" + v)
@@ -325,7 +340,12 @@ func runC11(t *testing.T, r *engine.Run) {
 		case a == "gap":
 			// also lets the authorisation cache of the credentials controller expire from time to time
 			if tp.Bool(1, 3, "long") {
-				w.advance(2 * time.Minute)
+				if tp.Bool(1, 4, "verylong") {
+					w.advance(50 * time.Minute)
+					r.Probe("very_long_gap")
+				} else {
+					w.advance(2 * time.Minute)
+				}
 			} else {
 				w.advance(time.Duration(1+tp.Choose(100, "ms")) * time.Millisecond)
 			}
